@@ -451,6 +451,31 @@ def main() -> int:
                               '(reference models, round trips, invariants '
                               'over histories); 16 shards; library-free '
                               'JSON replay files',
+        }, {
+            'name': 'fuzz',
+            'path': 'harness/fuzz.py',
+            'serves_properties': ['C03', 'C06', 'C07'],
+            'kind_free_text': 'coverage-guided byte-level fuzzing with '
+                              'atheris/libFuzzer (installed by setup.sh into '
+                              './.deps); the fuzz target decodes the bytes '
+                              'into a case and runs the same run_case oracle '
+                              'as the Hypothesis part; saved inputs become '
+                              'the same JSON replay files; skipped with a '
+                              'note in the evidence when atheris cannot be '
+                              'imported',
+        }, {
+            'name': 'threads',
+            'path': 'harness/simloop.py (CountingExecutor), '
+                    'harness/servers.py (maildir_sim(threads=True))',
+            'serves_properties': ['C02', 'C03', 'C10', 'C17', 'C20'],
+            'kind_free_text': 'pymap on its threading subsystem (the maildir '
+                              'command line default) inside the same driver; '
+                              'C03/C10/C17 one command at a time '
+                              '(reproducible), C02/C17 generated bursts of '
+                              'commands in flight together and C20 thread '
+                              'stress programs with interleaving-independent '
+                              'oracles (one-sided: the schedule is the '
+                              "operating system's)",
         }],
         'checks': checks,
         'notes': 'Exit codes: 0 held / 1 VIOLATION line / 2 harness error '
